@@ -8,3 +8,11 @@ type GroupingStrategy interface {
 	// GetName returns the strategy name.
 	GetName() string
 }
+
+// renumberGroups assigns group IDs in the final (sorted) order of the groups, so
+// that an ID does not depend on the order in which the groups were built
+func renumberGroups(groups []*CloneGroup) {
+	for i, g := range groups {
+		g.ID = i
+	}
+}
